@@ -142,6 +142,30 @@ def _roundtrip(ctx, case, flav, version, app_id, instrs, fobj=None, mutate=None)
         bad = next((f"{codec.describe_instr(a)} decoded as {codec.describe_instr(b)} ({type(b).__name__})"
                     for a, b in zip(objs, dd.instructions) if type(a) is not type(b) or codec.describe_instr(a) != codec.describe_instr(b)), "length")
         return f"a long-lived Deserializer({flav}) decodes differently from deserialize(): {bad}"
+    # a consumer edits the decoded instructions in place (the NV transpiler does); decoding the same bytes again,
+    # with any decoder of the process, must still give what the bytes say
+    if objs:
+        for d_ in (dec, dd):
+            for ins_, (m, _) in zip(d_.instructions, instrs):
+                codec.edit_in_place(ins_, codec.mk_instr(fobj, flav, m, codec.rand_values(ctx.rng, isa.TABLE[flav][m][1])))
+        ctx.count("decodes_after_consumer_edit")
+        for name, again in (("deserialize()", deserialize(raw, flavour=fobj)), ("a long-lived Deserializer", _deserializers()[flav].deserialize_subroutine(raw))):
+            got = [codec.describe_instr(i) for i in again.instructions]
+            if got != [[m, v] for m, v in instrs]:
+                bad = next((f"{w} decoded as {g}" for g, w in zip(got, instrs) if g != [w[0], w[1]]), "length")
+                return f"after a consumer edited earlier decoded instructions in place, {name} decodes the unchanged bytes differently: {bad}"
+        # ... and an in-place operand edit of the encoded Subroutine itself (same instruction count) must show in its bytes
+        k_ = ctx.rng.randrange(len(objs))
+        m_ = instrs[k_][0]
+        nv_ = codec.rand_values(ctx.rng, isa.TABLE[flav][m_][1])
+        codec.edit_in_place(sub.instructions[k_], codec.mk_instr(fobj, flav, m_, nv_))
+        want_ = [[m, v] for m, v in instrs]
+        want_[k_] = [m_, nv_]
+        ctx.count("reencode_after_operand_edit")
+        got_ = [codec.describe_instr(i) for i in deserialize(bytes(sub), flavour=fobj).instructions]
+        if got_ != want_:
+            return (f"after operand fields of instruction {k_} were updated in place to {[m_, nv_]}, bytes(Subroutine) still "
+                    f"encodes {got_[k_] if k_ < len(got_) else '?'} (stale encoding)")
     # the same Subroutine object, changed after it was encoded once, must encode its current content
     if objs and mutate is not None:
         new_app, new_instrs = mutate
